@@ -4,6 +4,7 @@
 
 mod core;
 mod enc;
+mod fml;
 mod gen;
 mod model;
 mod monitor;
